@@ -269,8 +269,8 @@ func AppendExtraLabelsHandler(prefetchSize int64, wrapper func(images.Handler) i
 
 func layerFromDigest(layers []ocispec.Descriptor, target digest.Digest) (ocispec.Descriptor, bool) {
 	for _, l := range layers {
-		if l.Digest == target {
-			return l, images.IsLayerType(l.MediaType)
+		if l.Digest == target && images.IsLayerType(l.MediaType) {
+			return l, true
 		}
 	}
 	return ocispec.Descriptor{}, false
